@@ -29,10 +29,15 @@ def _sqrt_helper(v):
 def _sinc_helper(v):
     fv = np.sinc(v)
     df = np.empty_like(v)
-    sel = v != 0.
-    v = v[sel]
-    df[sel] = (np.cos(np.pi*v)-fv[sel])/v
-    df[~sel] = 0
+    # (cos(pi v) - sinc(v))/v cancels catastrophically for small |v| (absolute
+    # error eps/|v|): use the Maclaurin series of the derivative there
+    small = np.abs(v) < 0.1
+    t = np.pi*v[small]
+    t2 = t*t
+    df[small] = np.pi*t*(-1./3 + t2*(1./30 + t2*(-1./840 + t2*(
+        1./45360 + t2*(-1./3991680 + t2/518918400.)))))
+    vl = v[~small]
+    df[~small] = (np.cos(np.pi*vl)-fv[~small])/vl
     return (fv, df)
 
 
